@@ -3,6 +3,7 @@
 package main
 
 import (
+	"bytes"
 	"crypto/ecdsa"
 	"crypto/elliptic"
 	"crypto/rand"
@@ -103,9 +104,10 @@ func newKey(cn string) keyPair {
 }
 
 type redactCase struct {
-	Form string                   `json:"form"` // textual form of every private key of the history
-	Init [][]interface{}          `json:"init"` // slots [position, element]
-	Ops  []map[string]interface{} `json:"ops"`
+	Form  string                   `json:"form"`  // textual form of every private key of the history
+	Spell string                   `json:"spell"` // spelling of the key name at the untyped positions
+	Init  [][]interface{}          `json:"init"`  // slots [position, element]
+	Ops   []map[string]interface{} `json:"ops"`
 }
 
 // liveKey is a key currently configured at element slot of a position.
@@ -148,6 +150,47 @@ func tlsObj(kp keyPair, server bool) obj {
 		o["insecure_skip"] = true
 	}
 	return o
+}
+
+// curSpell is how the key NAME is spelled at the untyped positions of the current history (ConfigRedact KeySpells).
+var curSpell = "exact"
+
+const escSentinel = "private_keyVERIFESC" // replaced by an escaped spelling in the JSON text
+
+func spelledName(spell string) string {
+	switch spell {
+	case "title":
+		return "Private_Key"
+	case "upper":
+		return "PRIVATE_KEY"
+	case "camel":
+		return "privateKey"
+	case "escaped":
+		return escSentinel
+	}
+	return "private_key"
+}
+
+// respell puts the escaped spelling into a JSON text (the parser resolves it to private_key).
+func respell(b []byte) []byte {
+	return bytes.Replace(b, []byte(escSentinel), []byte("private\\u005fkey"), -1)
+}
+
+// utlsObj is a TLS context as it is written into an untyped config (filter config, extend).
+func utlsObj(kp keyPair) obj {
+	o := tlsObj(kp, false)
+	if n := spelledName(curSpell); n != "private_key" {
+		o[n] = o["private_key"]
+		delete(o, "private_key")
+	}
+	return o
+}
+
+// consumerAccepts: does decoding into v2.TLSConfig (what the owner of an untyped config does) take the spelling as the key
+func consumerAccepts(spell string) bool {
+	doc := respell([]byte(`{"` + spelledName(spell) + `": "k"}`))
+	var t v2.TLSConfig
+	return json.Unmarshal(doc, &t) == nil && t.PrivateKey == "k"
 }
 
 func upsertByType(list []interface{}, typ string, entry obj) []interface{} {
@@ -215,12 +258,12 @@ func (r *redactor) docPlace(doc obj, p string, K []int) {
 		doc["cluster_manager"].(obj)["tls_context"] = tlsObj(one(), false)
 	case "ext":
 		doc["extends"] = upsertByType(asList(doc["extends"]), "tunnel_agent", obj{"type": "tunnel_agent", "config": obj{"enable": false,
-			"cluster": "C", "hosting_listener": "L", "tls_context": tlsObj(one(), false)}})
+			"cluster": "C", "hosting_listener": "L", "tls_context": utlsObj(one())}})
 	case "exta": // an extend with a list of servers, each with its own (optional) TLS context
 		servers := elems(func(i int, k *keyPair) obj {
 			o := obj{"address": fmt.Sprintf("10.20.0.%d:443", i+1), "weight": uint64(i + 1)}
 			if k != nil {
-				o["tls_context"] = tlsObj(*k, false)
+				o["tls_context"] = utlsObj(*k)
 			}
 			return o
 		})
@@ -228,11 +271,11 @@ func (r *redactor) docPlace(doc obj, p string, K []int) {
 			"config": obj{"mode": "static", "servers": servers}})
 	case "sf":
 		l["stream_filters"] = upsertByType(asList(l["stream_filters"]), "verif_tls_holder", obj{"type": "verif_tls_holder",
-			"config": obj{"upstream": obj{"tls_context": tlsObj(one(), false)}}})
+			"config": obj{"upstream": obj{"tls_context": utlsObj(one())}}})
 	case "sfa": // a network filter whose untyped config keeps a list of contexts; some refer to SDS / carry no key
 		set := elems(func(i int, k *keyPair) obj {
 			if k != nil {
-				o := tlsObj(*k, false)
+				o := utlsObj(*k)
 				o["server_name"] = fmt.Sprintf("s%d.verif", i)
 				return o
 			}
@@ -288,6 +331,7 @@ func (r *redactor) runtimePlace(p string, K []int) error {
 		}
 		r.docPlace(doc, p, K)
 		nb, _ := json.Marshal(lo)
+		nb = respell(nb)
 		lc := &v2.Listener{}
 		if err = json.Unmarshal(nb, lc); err != nil {
 			return err
@@ -316,6 +360,7 @@ func (r *redactor) runtimePlace(p string, K []int) error {
 		r.docPlace(doc, p, K)
 		e := doc["extends"].([]interface{})[0].(obj)
 		raw, _ := json.Marshal(e["config"])
+		raw = respell(raw)
 		typ := e["type"].(string)
 		if err = v2.ExtendConfigParsed(typ, raw); err == nil {
 			configmanager.SetExtend(typ, raw) // what the admin debug API and HandleExtendConfig do
@@ -330,9 +375,10 @@ var endpointQuery = map[string]string{
 	"alllisteners": "?alllisteners", "router": "?router=R", "cluster": "?cluster=C", "listener": "?listener=L",
 }
 
-// leakedIn names every slot whose key occurs in body: "position#element" (+ "/<key pattern>" for array positions).
-func (r *redactor) leakedIn(body string) []string {
-	out := []string{}
+// leakedIn names every slot whose key occurs in body: position and "position#element" (+ "/<key pattern>" for array positions).
+func (r *redactor) leakedIn(body string) []map[string]string {
+	tags := []string{}
+	pos := map[string]string{}
 	for p, ks := range r.live {
 		for _, k := range ks {
 			if strings.Contains(body, k.marker) {
@@ -340,17 +386,23 @@ func (r *redactor) leakedIn(body string) []string {
 				if isArrayPos(p) {
 					s += "/" + r.pat[p]
 				}
-				out = append(out, s)
+				tags = append(tags, s)
+				pos[s] = p
 			}
 		}
 	}
 	for _, k := range r.retired {
 		if strings.Contains(body, k.marker) {
-			out = append(out, "retired")
+			tags = append(tags, "retired")
+			pos["retired"] = "retired"
 			break
 		}
 	}
-	sortStrings(out)
+	sortStrings(tags)
+	out := []map[string]string{}
+	for _, t := range tags {
+		out = append(out, map[string]string{"p": pos[t], "s": t})
+	}
 	return out
 }
 
@@ -541,6 +593,10 @@ func runRedact() {
 		if curForm == "" {
 			curForm = "pem"
 		}
+		curSpell = c.Spell
+		if curSpell == "" {
+			curSpell = "exact"
+		}
 		r := &redactor{tr: tr, keys: pool, next: i * 7, live: map[string][]liveKey{}, pat: map[string]string{}}
 		doc := gen.Skeleton(i)
 		initK := map[string][]int{}
@@ -557,11 +613,17 @@ func runRedact() {
 		}
 		dir := freshDir("redact")
 		path := writeDoc(dir, doc, false)
+		if fb, err := ioutil.ReadFile(path); err == nil {
+			mustWrite(path, respell(fb))
+		}
 		initEv := c.Init
 		if initEv == nil {
 			initEv = [][]interface{}{}
 		}
-		tr.Emit(vh.Ev{"ev": "new", "id": i, "init": initEv, "form": curForm})
+		tr.Emit(vh.Ev{"ev": "new", "id": i, "init": initEv, "form": curForm, "spell": curSpell})
+		if curSpell != "exact" {
+			tr.Emit(vh.Ev{"ev": "accepts", "spell": curSpell, "ok": consumerAccepts(curSpell)})
+		}
 		life, err := Start(path)
 		if err != nil {
 			tr.Emit(vh.Ev{"ev": "start", "ok": false, "err": trunc(err.Error())})
